@@ -127,6 +127,9 @@ class SsbGraphMinimizer:
         outs = g.incident(jump, OUT)
         assert len(outs) == 1
         ov = g.es[outs[0]].target_vertex
+        if label.index == 0:
+            # The routine is entered at this label. Entering is not an edge of the graph, so it can't be redirected.
+            return []
         if isinstance(ov["op"], SsbLabel):
             # The jump target is just another label, redirect previous label to this one.
             ins = g.incident(label, IN)
@@ -715,6 +718,9 @@ class SsbGraphMinimizer:
                 ):
                     in_edges = v.in_edges()
                     out_edges = v.out_edges()
+                    if len(in_edges) == 0 and v.index == 0:
+                        # The routine starts with this jump; it has no in edges, but it is not unreachable.
+                        continue
                     if len(in_edges) != 0:
                         assert len(in_edges) == 1 and len(out_edges) == 1
                         v_before = in_edges[0].source_vertex
